@@ -149,17 +149,18 @@ def run(ctx):
         ctx.fail("build-error:explorer-checker", str(e)[-400:])
     # (3) free-running pass under the real ThreadSanitizer, assembly back end included
     fjobs = []
-    for be, cc in ((("asm", "gcc"), ("c64", "clang"), ("c32", "gcc"), ("generic", "clang"), ("dxor", "gcc")) if t else (("asm", "gcc"), ("c32", "clang"))):
+    for be, cc, nostl in ((("asm", "gcc", False), ("c64", "clang", False), ("c32", "gcc", False), ("generic", "clang", False), ("dxor", "gcc", False), ("asm", "clang", True), ("c64", "gcc", True)) if t
+                          else (("asm", "gcc", False), ("c32", "clang", False), ("asm", "gcc", True))):
         try:
-            lib = build.build_lib(be, cc=cc, san="tsan", opt="-O1")
-            fexe = build.build_prog("c16_free", ["harness/sched/c16_free.c", "harness/cpp_session.cpp"], lib, opt="-O1", link=["-lpthread"],
-                                    extra=["-I" + os.path.join(common.VERIF, "harness", "sched")])
+            lib = build.build_lib(be, cc=cc, san="tsan", opt="-O1", no_stl=nostl)
+            fexe = build.build_prog("c16_free", ["harness/sched/c16_free.c", "harness/cpp_session.cpp"], lib, opt="-O1", link=["-lpthread"], cfg_dep=nostl,
+                                    extra=["-I" + os.path.join(common.VERIF, "harness", "sched")] + (["-DASCON_NO_STL"] if nostl else []))
         except build.BuildError as e:
             ctx.fail("build-error:tsan-" + be, str(e)[-600:])
             continue
         ctx.configs.append(lib["desc"])
         for part in range(nproc):
-            fjobs.append((fexe, [60 if t else 12, part, nproc], "%s-%s" % (be, cc)))
+            fjobs.append((fexe, [60 if t else 12, part, nproc], "%s-%s%s" % (be, cc, "-nostl" if nostl else "")))
 
     def free(j):
         env = {"TSAN_OPTIONS": "halt_on_error=0:exitcode=0:report_signal_unsafe=0:history_size=4"}
@@ -178,7 +179,7 @@ def run(ctx):
                schedules=ctx.stats.get("schedules", 0), programs=ctx.stats.get("programs", 0), max_scheduling_points=ctx.stats.get("max_scheduling_points", 0),
                free_running_programs=ctx.stats.get("free_running_programs", 0),
                writable_static_storage=cens,
-               rule="programs = every unordered pair of a 45-operation alphabet (one operation per thread) with per-thread inputs to preemption bound 2 and with all inputs shared to bound 1 (2 in thorough), plus triples to bound 1; "
+               rule="programs = every unordered pair of a 46-operation alphabet (one operation per thread) with per-thread inputs to preemption bound 2 and with all inputs shared to bound 1 (2 in thorough), plus triples to bound 1; "
                     "every schedule within the bound is executed on the real library under the own runtime; states = programs, transitions = schedules; "
                     "cold-start pass: the same pairs to bound 1 with every schedule run in a freshly forked process that has executed no library code before (first-call behaviour); "
                     "writable static storage of every object file of the 5 back ends must be empty, and the library must import no libc function with process-wide state (denylist of ~100 names)",
